@@ -332,6 +332,7 @@ func unmarshalTable(fd *ast.FuncDecl) ([]wireField, string) {
 			num, _ := strconv.Atoi(bl.Value)
 			wt := -1
 			fields := map[string]bool{}
+			touched := map[string]bool{}
 			for _, s := range cc.Body {
 				ast.Inspect(s, func(m ast.Node) bool {
 					switch y := m.(type) {
@@ -351,12 +352,26 @@ func unmarshalTable(fd *ast.FuncDecl) ([]wireField, string) {
 								}
 							}
 						}
+					case *ast.SelectorExpr:
+						// every mention of a field of the message inside the case: the decoded field may only reuse its own storage
+						if id, ok := y.X.(*ast.Ident); ok && id.Name == recv {
+							touched[y.Sel.Name] = true
+						}
 					}
 					return true
 				})
 			}
 			if len(fields) != 1 || wt < 0 {
 				why = fmt.Sprintf("case %d does not assign exactly one field after a wire-type test", num)
+				continue
+			}
+			if len(touched) != 1 {
+				var ts []string
+				for t := range touched {
+					ts = append(ts, t)
+				}
+				sort.Strings(ts)
+				why = fmt.Sprintf("case %d decodes one field but touches {%s}: a decoded field is built on another field's storage (the two alias and overwrite each other)", num, strings.Join(ts, ", "))
 				continue
 			}
 			for f := range fields {
